@@ -21,7 +21,27 @@ def dec(c):
         k = c[p]; ts = c[p + 1:p + 1 + k]; p += 1 + k
         return ts
     while p < len(c):
-        o = c[p]; w = c[p + 1]; p += 2
+        o = c[p]
+        if 50 <= o <= 86 or o == 22:
+            p += 1
+            def take(n):
+                nonlocal p
+                xs = c[p:p + n]; p += n; return xs
+            if o == 22: ops.append("drop_containers")
+            elif o in (50, 60): ops.append("%s_add %s" % ("eb" if o == 50 else "ebc", take(3)))
+            elif o in (52, 61, 55, 56, 57, 66, 68, 74, 85, 86): ops.append("op%d %s" % (o, take(1)))
+            elif o in (53, 62, 63, 64, 65, 67, 72, 84): ops.append("op%d %s" % (o, take(2)))
+            elif o == 54: ops.append("eb_insert %s %s" % (take(2), href()))
+            elif o == 70:
+                sl = take(1); ts = types(); ops.append("cb_new %s %s n=%s" % (sl, ts, take(1)))
+            elif o == 71:
+                a = take(3); ops.append("cb_push slot=%d t=%d %s" % (a[0], a[1], take(a[2])))
+            elif o == 80: ops.append("cmd_spawn %s %s" % (take(1), bundle()))
+            elif o == 81: ops.append("cmd_insert %s %s %s" % (take(1), href(), bundle()))
+            elif o == 82: ops.append("cmd_remove %s %s %s" % (take(1), href(), types()))
+            elif o == 83: ops.append("cmd_despawn %s %s" % (take(1), href()))
+            continue
+        w = c[p + 1]; p += 2
         if o == 1: ops.append("spawn w%d %s" % (w, bundle()))
         elif o == 2: ops.append("spawn_at w%d %s %s" % (w, href(), bundle()))
         elif o == 3: ops.append("insert w%d %s %s" % (w, href(), bundle()))
